@@ -117,3 +117,66 @@ def check_cascade_semantics(ctx, rid, casc, pred, helpers):
         ctx.floor(rid, nscen, 15, "cascade scenarios")
     except NotSymbolic as exc:
         raise AnalysisError(f"the correction cascade is outside the evaluation whitelist: {exc}") from exc
+
+
+def check_helper_uniformity(ctx, rid, helpers):
+    """Each basis-correction helper, evaluated on abstract shells with two primitives: within a shell either every
+    primitive is rescaled or none is (a correction that reaches only some primitives of a contraction is never right),
+    exponents and the shell list are preserved, and the input basis is not modified."""
+    prog = ctx.prog
+    shell_cls = prog.cls("iodata.basis.Shell")
+    basis_cls = prog.cls("iodata.basis.MolecularBasis")
+    from ..symarr import Sym
+
+    kinds = [(0, "c"), (1, "c"), (2, "c"), (2, "p"), (3, "c"), (3, "p"), (4, "c"), (4, "p"), (5, "p")]
+    n = 0
+    try:
+        for h in helpers:
+            if "obasis" not in h.name or "normalize" in h.name:
+                continue  # coefficient-vector helpers and the overlap-based renormalisation are covered elsewhere
+            shells = [Rec(shell_cls, icenter=i % 2, angmoms=np.array([l]), kinds=[k], exponents=sym_array(f"a{i}", (2,)), coeffs=sym_array(f"k{i}", (2, 1))) for i, (l, k) in enumerate(kinds)]
+            before = [s.fields["coeffs"].copy() for s in shells]
+            basis = Rec(basis_cls, shells=shells, conventions={}, primitive_normalization="L2")
+            ev = AccessorEval(prog, shell_cls, limit=8000)
+            ev.module = h.module
+            gcn = prog.funcs.get("iodata.overlap.gob_cart_normalization") or prog.funcs.get("iodata.formats.molden.gob_cart_normalization")
+            stubs = {}
+            for q, f_ in prog.funcs.items():
+                if f_.name == "gob_cart_normalization":
+                    stubs[q] = lambda args, kw: Sym.atom(f"N({args[0]!r};{','.join(repr(Sym.const(x)) for x in np.asarray(args[1], dtype=object).ravel())})")
+            ev.stubs = stubs
+            try:
+                out = ev.run_free(h, [basis], {})
+            except Raised as exc:
+                ctx.violate(rid, f"{h.name} raises {exc.cls} on an abstract basis", h, h.node, construct=f"{h.name} raises")
+                continue
+            n += 1
+            if any(not same(s.fields["coeffs"], b) for s, b in zip(shells, before)):
+                ctx.violate(rid, f"{h.name} modifies the basis it was given", h, h.node, construct=f"{h.name} mutates input")
+                continue
+            if out is None:
+                ctx.ok(rid, f"{h.name}: reports 'not applicable' (None) for a basis it has nothing to correct in", f"{h.module.relpath}:{h.lineno}", sample=False)
+                continue
+            oshells = out.fields.get("shells") if isinstance(out, Rec) else None
+            if not isinstance(oshells, list) or len(oshells) != len(shells):
+                ctx.violate(rid, f"{h.name} does not return a basis with the same number of shells", h, h.node, construct=f"{h.name} shell count")
+                continue
+            bad = None
+            touched = 0
+            for (l, k), so, b in zip(kinds, oshells, before):
+                if not same(so.fields["exponents"], shells[kinds.index((l, k))].fields["exponents"]):
+                    bad = f"shell l={l}{k}: the exponents are changed"
+                    break
+                ratios = [Sym.const(so.fields["coeffs"][i, 0]) / Sym.const(b[i, 0]) for i in range(2)]
+                changed = [not (r == Sym.const(1)) for r in ratios]
+                touched += any(changed)
+                if any(changed) and not all(changed):
+                    bad = f"shell l={l}{k}: primitive {changed.index(True)} is rescaled, primitive {changed.index(False)} is not (a contraction of several primitives is corrected only in part)"
+                    break
+            if bad:
+                ctx.violate(rid, f"{h.name}: {bad}", h, h.node, construct=f"{h.name}: {bad}"[:200])
+            else:
+                ctx.ok(rid, f"{h.name} on 9 abstract two-primitive shells: {touched} shell types rescaled, each in all its primitives; exponents, shell count and the input basis untouched", f"{h.module.relpath}:{h.lineno}")
+    except NotSymbolic as exc:
+        raise AnalysisError(f"a correction helper is outside the evaluation whitelist: {exc}") from exc
+    ctx.floor(rid, n, 3, "basis-correction helpers evaluated")
